@@ -1231,6 +1231,20 @@ def _scenario(seed: int, kind: str):
         j = g.fresh_t()
         right = b.tid
         rkey = "id"
+        if r.random() < 0.15:
+            # a user-provided suffix: *every* right column gets it, so a right column whose own name is free can still collide
+            # (`y` + `_x` = the left column `y_x`): the join must be refused with ValueError
+            g.stmts[:] = [s_ for s_ in g.stmts if s_["id"] not in (a.tid, b.tid)]
+            g.tables[:] = []
+            a = table("src0", [("a", "int"), ("y_x", "int")])
+            b = table(rname, [("k", "int"), ("y", "int")])
+            r0 = g.fresh_t()
+            S(id=r0, op="rename", src=b.tid, map=[["id", "rid"]])
+            S(id=j, op="join", src=a.tid, right=r0, on=[{"fn": "equal", "args": [{"col": [a.tid, "id"]}, {"col": [b.tid, "k"]}]}],
+              how=r.choice(["inner", "left"]), suffix="_x")
+            S(id="x1", op="export", src=j, target="polars", ordered=False)
+            p = g.program()
+            return p, dict(features=[kind, "join_user_suffix_collision"], ops=[], verbs=[s_["op"] for s_ in g.stmts], final="x1")
         if r.random() < 0.4:
             # the join key of the right side got its name by a rename (its creation name differs): only the clashing
             # names are suffixed when nothing but join columns clashes - decided on the *current* names
@@ -1421,6 +1435,41 @@ def _scenario(seed: int, kind: str):
         S(id=j, op="join", src=a.tid, right=b.tid, on=on, how=r.choice(["inner", "inner", "left"]))
         S(id=f, op="arrange", src=j, by=[{"col": [a.tid, "id"]}, {"col": [b.tid, "id"]}])
         S(id="x1", op="export", src=f, target="polars", ordered=False)
+    elif kind == "scen_subq_group":
+        # the grouping state crosses a forced subquery and the grouping key is not mentioned by any later verb and not part of
+        # the final selection: the subquery must still hand it on (D66)
+        a = table("src0", [("g", "int"), ("x", "int")], nrows=r.choice([5, 6, 8]))
+        gcol = next(c for c in g.tables[-1]["cols"] if c["name"] == "g")
+        gcol["vals"] = [r.choice([1, 1, 2, 3, None]) for _ in gcol["vals"]]
+        t1, t2, t3, t4, t5, t6 = (g.fresh_t() for _ in range(6))
+        S(id=t1, op="group_by", src=a.tid, cols=[{"col": [a.tid, "g"]}])
+        S(id=t2, op="mutate", src=t1, cols=[["w", {"fn": "row_number", "args": [], "arrange": [{"col": [a.tid, "id"]}]}]])
+        S(id=t3, op="alias", src=t2, keep_col_refs=r.random() < 0.5)
+        S(id=t4, op="filter", src=t3, preds=[{"fn": "greater_equal", "args": [{"c": "w"}, {"lit": r.choice([1, 2])}]}])
+        S(id=t5, op="summarize", src=t4, cols=[["s", {"fn": "sum", "args": [{"c": "x"}]}], ["n", {"fn": "count_star", "args": []}]])
+        S(id=t6, op=r.choice(["select", "drop"]), src=t5, cols=["s", "n"] if g.stmts is None else ["s", "n"])
+        if g.stmts[-1]["op"] == "drop":
+            g.stmts[-1]["cols"] = ["g"]
+        S(id="x1", op="export", src=t6, target="polars", ordered=False)
+    elif kind == "scen_union_agg_right":
+        # the right operand of a union is itself an aggregate below a subquery and a join, listed in another column order than
+        # the left one (the SQL compiler re-reads that operand to re-select it)
+        a = table("src0", [("g", "int"), ("x", "int")], nrows=r.choice([3, 5]))
+        b = table("src1", [("g", "int"), ("x", "int")], nrows=r.choice([4, 6]))
+        c = table("src2", [("h", "int")], nrows=3)
+        for tb in g.tables[-3:]:
+            for col in tb["cols"]:
+                if col["name"] == "g":
+                    col["vals"] = [r.choice([1, 2, 3]) for _ in col["vals"]]
+        l1, r1, r2, r3, r4, r5, u = (g.fresh_t() for _ in range(7))
+        S(id=l1, op="select", src=a.tid, cols=["g", "x"])
+        S(id=r1, op="group_by", src=b.tid, cols=[{"col": [b.tid, "g"]}])
+        S(id=r2, op="summarize", src=r1, cols=[["x", {"fn": "sum", "args": [{"col": [b.tid, "x"]}]}]])
+        S(id=r3, op="alias", src=r2)
+        S(id=r4, op="join", src=r3, right=c.tid, on=[{"fn": "equal", "args": [{"col": [r3, "g"]}, {"col": [c.tid, "id"]}]}], how="inner")
+        S(id=r5, op="select", src=r4, cols=r.choice([["x", "g"], ["g", "x"]]))
+        S(id=u, op="union", src=l1, right=r5, distinct=r.random() < 0.3)
+        S(id="x1", op="export", src=u, target="polars", ordered=False)
     elif kind == "scen_selfjoin_agg":
         # "join the aggregate back": a table joined with a summary of itself (through alias()); verbs after
         # the join use columns of the origin that the summary dropped
